@@ -6,7 +6,8 @@ coded in gimli incl. tombstone mode, the DWARF 6.2 machine with exact arithmetic
 header encoder for v2-5).
  G: MCLineSM enumerates, at address size 1, every program over the instruction
     alphabet up to the tier's length per header tuple (prog), every opcode byte
-    (opc), header tables / v5 entry formats (hdr) and address sizes 2/4/8 (wide);
+    (opc), header tables / v5 entry formats (hdr), address sizes 2/4/8 (wide) and every
+    concatenation of up to 3 sequence templates mixing live and tombstoned sequences (seq);
     inside TLC: Dec o Enc = id, as-coded = DWARF machine on well-formed programs,
     monotone / in-range rows for every program, sequences consistent.  Each
     state is one `.debug_line` section with the expected observation, replayed by
@@ -49,6 +50,32 @@ def mono_ok(rows, asz):
         if k + 1 < len(rows) and not (r[5] >> 2) & 1 and num(r[0]) > num(rows[k + 1][0]):
             return False
     return True
+
+
+def seqs_consistent(o):
+    """The sequence clause evaluated on the observation alone (any input): resuming the reported sequences one
+    after the other gives exactly the rows of the straight run up to its last end_sequence row; every sequence
+    ends with its only end_sequence row, whose address is the reported end; the reported start is the address of
+    its first row.  (Same predicate as LineSM!SequencesConsistent, which TLC checks on every model run.)"""
+    if o.get("end") != "done" or not o["seqs"].get("ok"):
+        return None
+    rows = o["rows"]
+    last = max([k for k, r in enumerate(rows) if (r[5] >> 2) & 1], default=-1)
+    cat = []
+    for s in o["seqs"]["list"]:
+        sr = s["rows"]
+        if s.get("rend") != "done" or not sr:
+            return "a resumed sequence yields no rows or fails"
+        if not (sr[-1][5] >> 2) & 1 or any((r[5] >> 2) & 1 for r in sr[:-1]):
+            return "a resumed sequence does not end with its only end_sequence row"
+        if sr[-1][0] != s["end"]:
+            return "reported end is not the end_sequence address"
+        if len(sr) >= 2 and sr[0][0] != s["start"]:
+            return "reported start is not the first row's address"
+        cat += sr
+    if cat != rows[:last + 1]:
+        return "resumed rows differ from the straight run"
+    return None
 
 
 def norm_files(fs):
@@ -108,6 +135,10 @@ def compare(ctx, case, o):
         for s in o["seqs"]["list"]:
             if not mono_ok(s["rows"], asz):
                 ctx.violation("%s:monotone:resumed" % sc, "resumed rows not monotone / in range: %s" % s["rows"], case, o)
+    why = seqs_consistent(o)
+    if why:
+        ctx.violation("%s:seqs:resume-inconsistent" % sc, "sequences()/resume_from() inconsistent with rows(): %s; rows %s, seqs %s"
+                      % (why, o["rows"], json.dumps(o["seqs"].get("list"))[:500]), case, o)
     # ---- rows
     same = o["rows"] == exp["rows"] and o["end"] == exp["end"]
     if not same:
@@ -176,7 +207,7 @@ def run(ctx):
     profiles = ["dev"] if q else ["dev", "release"]
     bins = {p: ctx.build("gvh-linesm", p) for p in profiles}
     all6 = [1, 2, 3, 4, 5, 6]
-    modes = ["prog", "opc", "hdr", "wide"]
+    modes = ["prog", "opc", "hdr", "wide", "seq"]
 
     # --- G: programs over the alphabet per header tuple, every opcode byte,
     #        header tables / v5 entry formats, address sizes 2/4/8
@@ -196,7 +227,7 @@ def run(ctx):
 
     ctx.assumptions += [
         "well-formed = the DWARF 6.2 machine (exact arithmetic) never leaves the address space, never moves the address backwards inside a sequence with DW_LNE_set_address (A1), never sets an address >= 2^W-2 (A2, reserved tombstones), keeps `line` within 0..2^64-1, and every instruction decodes; only then rows/files/sequences are compared strictly",
-        "for ill-formed programs only the any-input clause is enforced (monotone, in-range addresses); differences from the as-coded model are drift",
+        "for ill-formed programs the any-input clause (monotone, in-range addresses) and the sequence clause as self-consistency of the observation (resumed rows = straight rows, bounds = first/end addresses) are enforced; other differences from the as-coded model are drift",
         "DW_LNS_advance_line with operand i64::MIN is outside the alphabet (debug-build negate overflow, a C01 finding)",
         "standard_opcode_lengths entries for opcodes 1..12 carry the DWARF-defined operand counts (gimli ignores them for known opcodes)",
         "rows()/sequences() are stopped at the first error",
